@@ -13,6 +13,8 @@ Case (JSON):
               executed in any state, recorded in obs.injected with k=-1 and inj["main_thread"]=True)
    "probe": bool}
   INJ = {"at": k, "do": "pause"|"defer"|"abort"|"stop"|"halt"|"suspend"|"put"|"release",
+         alternatively {"at_msg": j, "plus": d} (d callbacks after the j-th message of the stage was hooked) or
+         {"at_cmd": cmd, "nth": n, "plus_msgs": m, "plus": d} (relative to the n-th message with that command),
          "after": tau (optional virtual seconds after handle k),
          "release_after": tau | "release_at": k2   (suspend),
          "pre": AST|None, "post": AST|None, "just": str|None (suspend),
@@ -222,9 +224,14 @@ def _run(case, obs, keep_re):
     RE.subscribe(spy)
 
     at_msg = {}  # message index within the segment -> [(plus, fn)]
+    at_cmd = {}  # command -> [[nth_remaining, plus_msgs, plus, fn]]  (fires relative to the n-th message with that command)
 
     def msg_hook(msg):
         j = len(obs.hook) - seg.get("hook_base", 0)
+        for ent in at_cmd.get(msg.command, []):
+            ent[0] -= 1
+            if ent[0] == 0:
+                at_msg.setdefault(j + ent[1], []).append((ent[2], ent[3]))
         for plus, fn in at_msg.pop(j, []):
             loop.add_due(loop.count + plus, fn)
         obs.hook.append(
@@ -367,9 +374,14 @@ def _run(case, obs, keep_re):
         seg["i"] = si
         due = {}
         at_msg.clear()
+        at_cmd.clear()
         seg["hook_base"] = len(obs.hook)
         for inj in stage.get("inj", []):
-            if "at_msg" in inj:
+            if "at_cmd" in inj:
+                at_cmd.setdefault(inj["at_cmd"], []).append(
+                    [int(inj.get("nth", 1)), int(inj.get("plus_msgs", 0)), int(inj.get("plus", 0)), make_injection(inj)]
+                )
+            elif "at_msg" in inj:
                 at_msg.setdefault(int(inj["at_msg"]), []).append((int(inj.get("plus", 0)), make_injection(inj)))
             else:
                 due.setdefault(int(inj["at"]), []).append(make_injection(inj))
